@@ -467,7 +467,9 @@ impl<'a> CompilerState<'a> {
                         lit_strs.insert(name.clone(), v);
                         Ok(Expr::TmpId(name))
                     }
-                    Rule::primary_var_type => Ok(Expr::Type(primary.as_str().into())),
+                    Rule::primary_var_type => Ok(Expr::Type(
+                        primary.as_str().split_whitespace().collect::<Vec<&str>>().join(" "),
+                    )),
                     rule => unreachable!("Expr::parse expected atom, found {:?}", rule),
                 }
             })
@@ -639,7 +641,9 @@ impl<'a> CompilerState<'a> {
                         lit_strs.insert(name.clone(), v);
                         Ok(Expr::TmpId(name))
                     }
-                    Rule::primary_var_type => Ok(Expr::Type(primary.as_str().into())),
+                    Rule::primary_var_type => Ok(Expr::Type(
+                        primary.as_str().split_whitespace().collect::<Vec<&str>>().join(" "),
+                    )),
                     rule => unreachable!("Expr::parse expected atom, found {:?}", rule),
                 }
             })
@@ -979,7 +983,8 @@ impl<'a> CompilerState<'a> {
         let p = pairs.next().unwrap();
         match p.as_rule() {
             Rule::primary_var_type => {
-                let s = p.as_str();
+                // The text of the rule includes the layout written inside and after the type name
+                let s = p.as_str().split_whitespace().collect::<Vec<&str>>().join(" ");
                 if s.contains("*") {
                     Ok(2)
                 } else if s == "char" {
@@ -992,7 +997,7 @@ impl<'a> CompilerState<'a> {
                 }
             }
             Rule::identifier => {
-                let s = p.as_str();
+                let s = p.as_str().trim();
                 let var = self.variables.get(s);
                 match var {
                     Some(v) => match v.var_type {
